@@ -7,6 +7,8 @@
 // hook is a compile-time no-op.
 package vtrace
 
+import "time"
+
 // Enabled reports whether verification hooks are compiled in.
 const Enabled = false
 
@@ -22,3 +24,7 @@ func Gate(any, string) {}
 
 // Filter lets a harness replace a value at a named point (identity).
 func Filter(_ any, _ string, v any) any { return v }
+
+// VirtualNow is the clock of a virtual timeout (the real clock without the verif tag;
+// never called then, because TimeoutC is never ready).
+func VirtualNow(any) time.Time { return time.Now() }
